@@ -3618,6 +3618,10 @@ class Interp:
             if not cases:
                 continue
             cond = z3.simplify(z3.Or(*conds))
+            if exits and len(cases) == len(ft) and all(p['fr'][0].locals[n].py.segs[1][0] == 'item' for p in ft):
+                # every iteration that continues appends exactly one element, and (the loop having completed) every
+                # iteration continued: nothing is filtered out
+                cond = z3.BoolVal(True)
             val = self.merge_values(cases)
             c = self.register_comp(seg, K, length, cond, val, 'list')
             ef = [z3.Implies(self.path_cond(p), z3.And(*p['facts'][1:])) for p in ft if len(p['facts']) > 1]
